@@ -130,6 +130,7 @@ def run(ctx):
                              what="decoder-producible operand shape aborts in a control-transfer handler")
     ck.cov["unproducible_skipped"] = skipped
     ck.cov["branch_codes"] = branch_codes
+    ck.cov["exhaustive"] = True  # all 64 flag classes x every conditional branch handler
     ck.floor("conditional branch handlers", n_cond, 32)
     ck.floor("branch codes (implemented, producible)", len(branch_codes) - len(skipped), 40)
     step_advance(ctx)
